@@ -77,6 +77,21 @@ def run(ctx):
             ru = P.unbound(r)
             if ru[0] == 'call':
                 tagged.setdefault((ru[1], ru[2]), []).append((v, True, f, s))
+    # a variant constructor handed to map_err as a function: `.map_err(Arc::new).map_err(ChannelError::Ready)` builds no aggregate in this crate
+    for f in F.fns.values():
+        if F.is_derived(f):
+            continue
+        for bb, t in f.calls():
+            if not callee_is(t, 'Poll::map_err', 'Result::map_err') or len(t['args']) < 2 or t['args'][1].get('k') != 'const':
+                continue
+            fid = t['args'][1].get('fn_id') or ''
+            if '::ChannelError::' not in '::' + fid or '{constructor' not in fid:
+                continue
+            v = fid.split('::{constructor')[0].split('::')[-1]
+            for r, p in P.root(P.operand(f, t['args'][0], at=bb), through_params='closures', inline=False):
+                ru = P.unbound(r)
+                if ru[0] == 'call':
+                    tagged.setdefault((ru[1], ru[2]), []).append((v, True, f, None))
     per_request = None
     for f, bb, t, meth in eff:
         want = TAG[meth]
